@@ -229,3 +229,48 @@ func verif_C04_pipeline() {
 func verif_C04_line8() { verifLine8Harness("C04") }
 
 func verif_C04_line_mixed() { verifLineMixedHarness("C04") }
+
+// verif_C04_disciplines: a history of k commands (incl. a RCPT the backend
+// refuses and a DATA that may be refused or accepted) sent fully pipelined in
+// one segment and one command per segment: the reply streams must be identical,
+// so no command can lose or gain a reply through the way it was buffered.
+func verif_C04_disciplines() {
+	items := []string{"MAIL FROM:<a@v>\r\n", "RCPT TO:<b@v>\r\n", "RCPT TO:<rej@v>\r\n", "DATA\r\n", "RSET\r\n", "NOOP\r\n", "x\r\n.\r\n"}
+	k := verifBound(4, 5)
+	var cmds []string
+	for i := 0; i < k; i++ {
+		cmds = append(cmds, items[verifChoice(len(items))])
+	}
+	run := func(pipelined bool) []byte {
+		be := &vbackend{}
+		be.rcptErr = func(to string) error {
+			if to == "rej@v" {
+				return verifErrBackend()
+			}
+			return nil
+		}
+		s, _ := verifServer(be)
+		in := []byte("EHLO c\r\n")
+		var cuts []int
+		for _, c := range cmds {
+			cuts = append(cuts, len(in))
+			in = append(in, c...)
+		}
+		cuts = append(cuts, len(in))
+		in = append(in, "QUIT\r\n"...)
+		vc := &vconn{in: in, final: io.EOF}
+		if !pipelined {
+			vc.cuts = cuts
+		}
+		c := newConn(vc, s)
+		s.handleConn(c)
+		return vc.out
+	}
+	a := run(true)
+	b := run(false)
+	_, wf := verifParseReplies(a)
+	verifObserve("c04d", k, wf, len(a), len(b))
+	verifAssert(wf, "C04.disciplines-wellformed")
+	verifAssert(string(a) == string(b), "C04.pipelined-and-segmented-give-the-same-replies")
+	verifReach("C04.disciplines-end")
+}
